@@ -761,3 +761,71 @@ func RRangeFlush(c *core.Ctx) {
 		c.Anchor("statement lists that flush chPrev")
 	}
 }
+
+// ---------------------------------------------------------------------------
+// R-WORDSIB: \b and \w of one mode talk about the same characters.
+// The interpreter decides \b with a predicate (IsWordChar / IsECMAWordChar);
+// \w of the same mode is a class (WordClass / ECMAWordClass).  A boundary is
+// "word character on one side only", so the two must be one definition: a
+// class given by explicit ranges (the ECMAScript one: [0-9A-Z_a-z]) goes with
+// a predicate made of range comparisons (or CharIn on that class), a class
+// given by Unicode categories goes with a predicate over categories.
+// ---------------------------------------------------------------------------
+
+func RWordSib(c *core.Ctx) {
+	c.Rule("R-WORDSIB", "for each mode, the word-character predicate used for \\b (IsWordChar, IsECMAWordChar) and the class used for \\w (WordClass, ECMAWordClass) are defined the same way: a class initialised from explicit ranges (getCharSetFromOldString) is paired with a predicate without Unicode-category lookups, a class initialised from category names with a predicate over categories", 2)
+	p := c.P
+	syn := p.Pkg("syntax")
+	info := syn.TypesInfo
+	pairs := [][2]string{{"IsWordChar", "WordClass"}, {"IsECMAWordChar", "ECMAWordClass"}}
+	// class kinds from the package-level var initialisers
+	classKind := map[string]string{}
+	for _, f := range syn.Syntax {
+		for _, d := range f.Decls {
+			gd, ok := d.(*ast.GenDecl)
+			if !ok || gd.Tok != token.VAR {
+				continue
+			}
+			for _, sp := range gd.Specs {
+				vs := sp.(*ast.ValueSpec)
+				for i, nm := range vs.Names {
+					if i >= len(vs.Values) {
+						continue
+					}
+					call, ok := vs.Values[i].(*ast.CallExpr)
+					if !ok {
+						continue
+					}
+					if id, ok := call.Fun.(*ast.Ident); ok {
+						switch id.Name {
+						case "getCharSetFromOldString":
+							classKind[nm.Name] = "ranges"
+						case "getCharSetFromCategoryString":
+							classKind[nm.Name] = "categories"
+						}
+					}
+				}
+			}
+		}
+	}
+	for _, pr := range pairs {
+		fd, _ := p.DeclOf(p.LookupFunc("syntax", pr[0]))
+		ck, ok := classKind[pr[1]]
+		if fd == nil || !ok {
+			c.Anchor("syntax." + pr[0] + " / syntax." + pr[1])
+			continue
+		}
+		c.Visit("syntax." + pr[0])
+		pk := "ranges"
+		ast.Inspect(fd.Body, func(x ast.Node) bool {
+			if call, ok := x.(*ast.CallExpr); ok {
+				if cal := core.Callee(info, call); cal != nil && cal.Pkg() != nil && cal.Pkg().Path() == "unicode" {
+					pk = "categories"
+				}
+			}
+			return true
+		})
+		c.Check(pk == ck, fmt.Sprintf("%s and %s are defined the same way", pr[0], pr[1]), fd.Pos(),
+			"%s is built from %s but %s decides by %s: a character can be a word character for \\b and not for \\w (or the reverse), e.g. 'é' in ECMAScript mode: `a\\b` does not match \"aé\" although é is not in \\w", pr[1], ck, pr[0], pk)
+	}
+}
